@@ -293,28 +293,32 @@ def r5(run, ctx):
                   'loop (return, exception, KeyboardInterrupt) unlinks the pid file', m, n.ast,
                   'the daemon can exit leaving its pid file behind',
                   path=ctx.path_text(m, cfg.path(n, bad[0], avoid=un) or []) if bad else None)
-    # the loop variable is decided anew after every run: a run that ended (with or without
-    # an error in its clean-up) must not inherit "restart" from the iteration before
-    loops = [t for t in cfg.nodes if t.kind == 'test' and isinstance(t.stmt, ast.While)]
-    for n in startn:
-        inloop = [t for t in loops if n.id in cfg.branch_nodes(t, 'true')]
-        for t in inloop:
-            names = {x.id for x in ast.walk(t.ast) if isinstance(x, ast.Name)}
-            defs = [d for d in ctx.live_nodes(m) if d.kind == 'stmt' and
-                    isinstance(d.ast, (ast.Assign, ast.AugAssign)) and any(
-                        isinstance(x, ast.Name) and x.id in names
-                        for x in astq.attr_targets(d.ast))]
+    # the restart flag is decided anew after every run: a run that ended (with or without
+    # an error in its clean-up) must not inherit it from the iteration before
+    flags = set()
+    for d in ctx.live_nodes(m):
+        if d.kind == 'stmt' and isinstance(d.ast, ast.Assign) and \
+                '_restarting' in norm_text(d.ast.value):
+            flags |= {x.id for x in astq.attr_targets(d.ast) if isinstance(x, ast.Name)}
+    if run.need('R5', sorted(flags), 'restart flag taken from arbiter._restarting', m,
+                'the run loop never learns that a restart was requested'):
+        defs = [d for d in ctx.live_nodes(m) if d.kind == 'stmt' and
+                isinstance(d.ast, (ast.Assign, ast.AugAssign)) and any(
+                    isinstance(x, ast.Name) and x.id in flags for x in astq.attr_targets(d.ast))]
+        reads = [x for x in ctx.live_nodes(m) if x not in defs and x.ast is not None and any(
+            isinstance(y, ast.Name) and y.id in flags and isinstance(y.ctx, ast.Load)
+            for y in x.walk())]
+        for n in startn:
             nxt = [cfg.nodes[i] for i, lab in cfg.succ[n.id] if lab not in ('exc', 'raise')]
             r = cfg.reach(nxt, avoid=defs, labels_excluded=('exc', 'raise', 'reraise'),
                           include_src=True)
-            run.check('R5', t.id not in r or any(x in defs for x in nxt),
-                      'after arbiter.start() has returned the loop variable is assigned before '
-                      'the loop test', m, n.ast,
-                      'when arbiter.start() returns the run loop can reach its test with the '
-                      'loop variable left from before the run (True): after an accepted quit '
-                      'whose clean-up logged an error the daemon starts all over instead of '
-                      'exiting, and keeps its pid file',
-                      construct='restart flag not reset after a run')
+            stale = [x for x in reads if x.id in r]
+            run.check('R5', not stale, 'after arbiter.start() has returned the restart flag is '
+                      'assigned before it is looked at', m, n.ast,
+                      'when arbiter.start() returns, the run loop can look at the restart flag '
+                      'left from before the run (True): after an accepted quit whose clean-up '
+                      'logged an error the daemon starts all over instead of exiting, and keeps '
+                      'its pid file', construct='restart flag not reset after a run')
     # the unlink is in a finally
     fin = [t for t in ast.walk(m.node) if isinstance(t, ast.Try) and any(
         isinstance(c, ast.Call) and astq.call_last(c) == 'unlink'
